@@ -6,7 +6,7 @@
      reset --hard, checkout -f, switch --discard-changes, stash drop, partial stash, …), by extending
      the combined invariant `RInv2` (Lemmas/Discard.lean, Lemmas/DiscardRun.lean); the regressions
      O3, O17, O20, O21 as decided contrasts between the pre-fix and the current behaviour.
-     A path checkout (`discardFile`) is a restore followed by a human checkpoint since /repo 11d1e52e: what
+     A path checkout (`discardFile`) is a restore followed by a human checkpoint since /repo 5855e9da: what
      it discards has no claim left (`discard_drops_claims`), what it puts back keeps its author
      (`path_checkout_exact`, `regression_path_checkout_keeps_staged_ai_line`); its hypothesis is `WorkOK` of
      the staged version, as for `git restore` (the former `IndexClean` is gone).
